@@ -520,6 +520,11 @@ class SExec:
             base = self.ev(e.value, env)
             if isinstance(base, (list, tuple, str)) and not isinstance(e.slice, ast.Slice):
                 return base[self.ev(e.slice, env)]
+            if isinstance(base, Sym) and base.kind == "production" and not isinstance(e.slice, ast.Slice) and getattr(self, "production_names", None) is not None:
+                i = self.ev(e.slice, env)     # p[i]: the i-th right-hand-side symbol (sly indexes from 0)
+                if isinstance(i, int) and -len(self.production_names) <= i < len(self.production_names):
+                    return Sym(self.production_names[i], "attr")
+                raise GenRaise("IndexError", "production index %r" % (i,))
             raise Unsupported("subscript of %r" % (base,))
         raise Unsupported("expression %s (line %d)" % (type(e).__name__, getattr(e, "lineno", 0)))
 
